@@ -97,7 +97,9 @@ OPS = ["sm2_keygen", "sm2_sign", "sm2_sign_ctx", "sm2_decrypt", "sm2_decrypt_bad
        "hs_tlcp", "hs_tls12", "hs_tls13", "hs_tlcp_mutual", "hs_tls12_mutual", "hs_tls13_mutual",
        "hs_tlcp_untrusted", "hs_tls12_untrusted", "hs_tls13_untrusted", "hs_tls12_badclient",
        # a record is altered in flight (handshake phase or application phase): the failure paths of record protection
-       "hs_tlcp_tamper", "hs_tls12_tamper", "hs_tls13_tamper", "hs_tls13_mutual_tamper", "hs_tlcp_apptamper", "hs_tls12_apptamper", "hs_tls13_apptamper"]
+       "hs_tlcp_tamper", "hs_tls12_tamper", "hs_tls13_tamper", "hs_tls13_mutual_tamper", "hs_tlcp_apptamper", "hs_tls12_apptamper", "hs_tls13_apptamper",
+       # the connection dies inside an application record (header and part of the body arrive, then EOF) after data was exchanged
+       "hs_tlcp_appcut", "hs_tls12_appcut", "hs_tls13_appcut", "hs_tls13_appcut"]
 case_s = st.fixed_dictionaries({"op": st.sampled_from(OPS), "seed": st.integers(0, 1 << 20), "n": st.integers(1, 200)})
 
 _PKI = {}
@@ -126,7 +128,21 @@ def _handshake(ctx, proto, mutual, defect, seed, secrets):
         kw["client_cafile"] = _pki(proto, "server", "c19other")[1]["root"]
     if defect == "badclient":
         kw["server_cafile"] = _pki(proto, "server", "c19other")[1]["root"]
-    state = {"app": False, "n": 0}
+    state = {"app": False, "n": 0, "cut": False}
+    if defect == "appcut":
+        cutdir = "c2s" if seed & 1 else "s2c"
+
+        def hook(rec):
+            if not state["cut"] or rec.dir != cutdir:
+                return [rec.raw]
+            state["cut"] = False
+            body = rec.raw[5:]
+            k = (seed >> 4) % max(1, len(body))
+            if seed & 2:      # the header announces more than the sender ever had
+                L = min(16384 + 256, len(body) + 1 + (seed >> 8) % 4000)
+                return [rec.raw[:3] + L.to_bytes(2, "big") + body[:k]]
+            return [rec.raw[:5] + body[:k]]
+        kw["hook"] = hook
     if defect in ("tamper", "apptamper"):
         target = seed % 7
 
@@ -150,6 +166,7 @@ def _handshake(ctx, proto, mutual, defect, seed, secrets):
         ok = hc[0] != "timeout" and hs[0] != "timeout" and hc[1] == 1 and hs[1] == 1
         if ok:
             secrets["application plaintext"] = payload
+            secrets["application plaintext (reply)"] = payload[::-1]
             state["app"] = True
             for _ in range(3):
                 s.client.do("send", payload)
@@ -158,6 +175,13 @@ def _handshake(ctx, proto, mutual, defect, seed, secrets):
                 s.client.do("recv", 4096, timeout=10.0)
                 if defect != "apptamper":
                     break
+            if defect == "appcut":
+                snd, rcv = (s.client, s.server) if seed & 1 else (s.server, s.client)
+                state["cut"] = True
+                snd.do("send", hashlib.shake_128(b"c19 cut %d" % seed).digest(200))
+                snd.do("close")
+                rcv.do("recv", 4096, timeout=10.0)
+                rcv.do("recv", 4096, timeout=10.0)
         # whatever the endpoints derived is secret, completed or not
         for ep, nm in ((s.client, "client"), (s.server, "server")):
             if ep.conn is None:
@@ -204,7 +228,7 @@ def ops(case, ctx):
             parts = op.split("_")
             proto = parts[1]
             mutual = "mutual" in parts or "badclient" in parts
-            defect = next((x for x in ("untrusted", "badclient", "apptamper", "tamper") if x in parts), None)
+            defect = next((x for x in ("untrusted", "badclient", "apptamper", "appcut", "tamper") if x in parts), None)
             _handshake(ctx, proto, mutual, defect, seed, secrets)
             # the random values sent in the clear (hello randoms, key shares' public part) are not secrets, but the first
             # 32-byte draws also contain them: keep only draws that never appear on the wire - decided below by exclusion
